@@ -85,8 +85,66 @@ class SymList:
     def copy(self):
         return SymList(self.entries)
 
-    def index(self, x):
-        return self._concretize().index(x)
+    def index(self, x, *a):
+        return self._concretize().index(self._elem(x), *a)
+
+    # ---- the rest of the list API, by concretising the presence guards first (forks), so that code which handles the
+    # bookkeeping lists with other list operations is still executed rather than ending in a TypeError of the model
+    def _elem(self, x):
+        if isinstance(x, SInt):
+            x = cur().concretize(x.e)
+        return int(x)
+
+    def _set(self, elems):
+        self.entries = [(True, int(e)) for e in elems]
+
+    def __delitem__(self, i):
+        elems = self._concretize()
+        del elems[i]
+        self._set(elems)
+
+    def __setitem__(self, i, v):
+        elems = self._concretize()
+        if isinstance(i, slice):
+            elems[i] = [self._elem(x) for x in v]
+        else:
+            elems[i] = self._elem(v)
+        self._set(elems)
+
+    def insert(self, i, x):
+        elems = self._concretize()
+        elems.insert(i, self._elem(x))
+        self._set(elems)
+
+    def pop(self, i=-1):
+        elems = self._concretize()
+        v = elems.pop(i)
+        self._set(elems)
+        return v
+
+    def count(self, x):
+        return self._concretize().count(self._elem(x))
+
+    def reverse(self):
+        elems = self._concretize()
+        elems.reverse()
+        self._set(elems)
+
+    def clear(self):
+        self.entries = []
+
+    def __reversed__(self):
+        return reversed(self._concretize())
+
+    def __add__(self, o):
+        return self._concretize() + [self._elem(x) for x in o]
+
+    def __radd__(self, o):
+        return [self._elem(x) for x in o] + self._concretize()
+
+    def __iadd__(self, o):
+        self.extend(o)
+        return self
 
     # ---- checking support
     def guard_of(self, n):
